@@ -1580,9 +1580,11 @@ def check_C01(res):
             return ''
         vs = [ext_variant(clsd, n_, lambda i, a_=a_: a_.get(i)) for n_, a_ in c.objs if n_ in ('CanFdMessage64', 'CanFdErrorFrame64')]
         di = next((i for i, f in enumerate(clsd[cn]['fields']) if f['name'] == 'data'), None)
+        if not (vs and all(vs)):
+            return ''                       # some object announces extended frame data: finding 4 applies
         if any(len(a_.get(di, b'')) > 255 for n_, a_ in c.objs if n_ == cn):
             return ':data-above-255'        # finding 29: more data bytes than the 8-bit validDataBytes can say
-        return ':without-ext-data' if vs and all(vs) else ''
+        return ':without-ext-data'
     rng = random.Random(lib.seed() * 2741 + 1)
     classes = creatable(summary)
     ncases = 3 * len(classes) if res.tier == 'quick' else 40 * len(classes)
